@@ -31,7 +31,9 @@ def lit_texts(n, base, salt, every=False):
     if base == 10:
         return [("dec", d)]
     out = [("lower_pfx", "0" + PFX[base] + d), ("upper_pfx", "0" + PFX[base].upper() + d), ("lower_digits", "0" + PFX[base] + d.lower()),
-           ("padded", "0" + PFX[base] + "0" + d)]
+           ("padded", "0" + PFX[base] + "0" + d),
+           # leading zeros up to more digits than the largest accepted integer has in that base: the value is what counts, not the width
+           ("wide_padded", "0" + PFX[base] + d.rjust({2: 66, 8: 24, 16: 18}[base], "0"))]
     seen = set()
     res = []
     for v, t in out:
